@@ -61,9 +61,10 @@ def case(spec):
         e = gen.build(spec)
         pred = HplPredicateExpression(e) if sem.kind(e) != 'HplLiteral' else None
     except Exception as ex:
-        if isinstance(ex, TypeError):
-            # recorded defect class: two quantifiers reuse a variable NAME at different types (the same-reference check ignores scoping);
-            # membership is decided on the real code: the predicate is accepted once the quantified variables are renamed apart
+        if isinstance(ex, TypeError) and S.same_name_explicit_clash(spec):
+            # recorded defect class: two quantifiers reuse a variable NAME and the contexts of the two variables state disjoint types
+            # explicitly (the same-reference check ignores scoping). Membership: that syntactic condition (independent of hpl) AND
+            # the predicate is accepted by the real code once the quantified variables are renamed apart
             try:
                 e2 = gen.build(S.rename_quantifiers_apart(spec))
                 if sem.kind(e2) != 'HplLiteral':
@@ -81,6 +82,16 @@ def case(spec):
             found.append((f'parse-differs@{text}', f'real parser and callbacks disagree on «{text}»', rep))
     except Exception as ex:
         found.append((f'rejected-by-parser:{type(ex).__name__}@{text}', f'well-typed «{text}» rejected by the parser: {type(ex).__name__}: {short(ex, 120)}', rep))
+    # the same predicate over fields whose names merely START like a keyword, constant or unit must be accepted just the same
+    if hash(text) % 4 == 0 or len(text) < 28:
+        twin = S.keywordish_twin(spec)
+        ttext = gen.render(twin)
+        try:
+            tp = HplPredicateExpression(gen.build(twin))
+            if gen.parseable(twin) and CP.parse(ttext) != tp:
+                found.append((f'parse-differs@{ttext}', f'real parser and callbacks disagree on «{ttext}»', dict(rep, spec=twin, text=ttext)))
+        except Exception as ex:
+            found.append((f'rejected-by-parser:{type(ex).__name__}@{ttext}', f'well-typed «{ttext}» (names shaped like keywords) rejected: {type(ex).__name__}: {short(ex, 120)}', dict(rep, spec=twin, text=ttext)))
     # inferred type set of every reference contains the schema type
     qv = {}
     for n, bound in _nodes_with_bound(pred.condition):
